@@ -57,6 +57,21 @@ def scatter_as_block(t, pt):
     if not (isinstance(t, tuple) and t and t[0] == "store" and len(t) >= 4):
         return None
     base, idx, val = t[1], t[2], t[3]
+
+    def inv(g_):
+        if g_ == ("ext", "numpy.argsort", (pt,), ()):
+            return pt
+        if g_ == pt:
+            return ("ext", "numpy.argsort", (pt,), ())
+        return None
+    # R = zeros_like(W); R[np.ix_(g, g)] = W  puts W[i, j] at (g[i], g[j]) as well
+    if idx[0] == "ext" and idx[1] == "numpy.ix_" and len(idx[2]) == 2 and idx[2][0] == idx[2][1] and not idx[3] and t[4] is None and \
+            ((base[0] == "ext" and base[1] == "numpy.zeros_like" and base[2] == (val,) and not base[3]) or
+             (base[0] == "ext" and base[1] == "numpy.zeros" and len(base[2]) == 1 and not base[3] and base[2][0] in (("attr", val, "shape"), ("tuple", (Pp, Pp))))):
+        gi = inv(idx[2][0])
+        if gi is None:
+            return None
+        return ("block", ("sub", ("sub", val, ("tuple", (gi, FULL_SL))), ("tuple", (FULL_SL, gi))))
     if not (idx[0] == "tuple" and len(idx[1]) == 2 and val[0] == "sub" and val[2][0] == "tuple" and len(val[2][1]) == 2):
         return None
     W = val[1]
@@ -81,9 +96,10 @@ def scatter_as_block(t, pt):
         if cond[0] == "cmp" and cond[1] in (">", "<", ">=", "<=") and (cond[2] in factors or cond[3] in factors):
             return ("bad", "only the entries with `%s` are moved to their new position: edges whose weight does not satisfy it are dropped from the graph" % fmt(cond)[:60])
         return None
-    if g != ("ext", "numpy.argsort", (pt,), ()):
+    gi = inv(g)
+    if gi is None:
         return None
-    return ("block", ("sub", ("sub", W, ("tuple", (pt, FULL_SL))), ("tuple", (FULL_SL, pt))))
+    return ("block", ("sub", ("sub", W, ("tuple", (gi, FULL_SL))), ("tuple", (FULL_SL, gi))))
 
 
 def first_axis(t):
@@ -271,8 +287,11 @@ def analyse(rep, prog, name, full, also=()):
         if c.callkind == "method" and c.target == ".permutation":
             perm = c
     if perm is None:
-        other = [c for c in S.select("call", qname=f.qname) if (c.callkind == "method" and c.target in (".shuffle", ".permuted", ".choice", ".random", ".integers")) or
-                 (c.callkind == "ext" and c.target.startswith("numpy.random."))]
+        def sorts_a_draw(c_):
+            return c_.callkind == "ext" and c_.target in ("numpy.argsort", "sorted", "numpy.lexsort") and \
+                any(isinstance(x, tuple) and len(x) == 5 and x[0] == "method" and x[2] in ("random", "uniform", "integers", "normal") for a_ in c_.args for x in walk(a_))
+        other = [c for c in S.select("call", qname=f.qname) if (c.callkind == "method" and c.target in (".shuffle", ".permuted", ".choice")) or
+                 (c.callkind == "ext" and c.target in ("numpy.random.permutation", "numpy.random.shuffle", "numpy.random.choice", "random.shuffle", "random.sample")) or sorts_a_draw(c)]
         if other:
             rep.unk("PERM.random", fwhere(f, other[0].node), "the random relabelling is not drawn with rng.permutation(p); this way of drawing it (%s) is not read" % other[0].target)
         else:
@@ -319,9 +338,12 @@ def analyse(rep, prog, name, full, also=()):
         rep.unk("PERM.same-axes", fwhere(f), "result matrix left the block fragment: %s" % e.why)
         return
     blocks = [fct for m in got for fct in m if fct[0] == "B"]
-    ok = len(got) == 1 and len(blocks) == 1 and blocks[0][2] == pt and blocks[0][3] == pt and not blocks[0][4]
+    ASORT = ("ext", "numpy.argsort", (pt,), ())
+    ok = len(got) == 1 and len(blocks) == 1 and blocks[0][2] == blocks[0][3] and blocks[0][2] in (pt, ASORT) and not blocks[0][4]
+    by_inverse = ok and blocks[0][2] == ASORT        # relabelled with the inverse permutation: as random, and then the ordering is the permutation itself
     if ok:
-        rep.ok("PERM.same-axes", fwhere(f, main[0][0].node), "result = W[permutation, :][:, permutation]: the same relabelling on both axes")
+        rep.ok("PERM.same-axes", fwhere(f, main[0][0].node), "result = W[permutation, :][:, permutation]: the same relabelling on both axes" if not by_inverse else
+               "result = W[inverse, :][:, inverse] with inverse = argsort(permutation): the same relabelling on both axes")
     elif len(got) == 1 and len(blocks) == 1:
         rep.bad("PERM.same-axes", fwhere(f, main[0][0].node), "rows and columns are not re-indexed with the same permutation: %s" % MN.show(got))
     else:
@@ -371,6 +393,11 @@ def analyse(rep, prog, name, full, also=()):
                 return True
         return None
     inv = inverse_of(o)
+    if by_inverse:
+        # the block is indexed with argsort(permutation): the map position -> node is then the permutation itself
+        po = plain(o)
+        inv = True if po == pt else ("argsort(permutation), but the matrix was relabelled with the inverse permutation: the ordering of that matrix is the permutation itself"
+                                     if po == ASORT else None)
     if inv is True:
         rep.ok("PERM.ordering", fwhere(f, ords[0][1].node), "ordering = argsort(permutation), the inverse map (position -> node)")
     elif isinstance(inv, str):
